@@ -84,6 +84,13 @@ def fuse_program(rng, tid, sym, kind, cfg=None, dtype="float64", maxrank=4):
             steps.append({"op": "unfuse", "in": ["ff"], "out": ["uf"], "args": {"axis": fused2[0]}})
             steps.append({"op": "transpose", "in": ["uf"], "out": ["fback"], "args": {"axes": inverse(p2)}})
             steps.append(rel("blocks" if kind == "abelian" else "same", "C05.roundtrip.nested", "f", "fback"))
+            # conjugating a leg that was fused in stages and unfusing it stage by stage = unfusing first and conjugating then
+            steps.append({"op": "conj", "in": ["ff"], "out": ["ffc"], "args": {}})
+            steps.append({"op": "unfuse", "in": ["ffc"], "out": ["ffc_u"], "args": {"axis": fused2[0]}})
+            steps.append({"op": "unfuse_all", "in": ["ffc_u"], "out": ["ffc_uu"], "args": {}})
+            steps.append({"op": "unfuse_all", "in": ["uf"], "out": ["uf_u"], "args": {}})
+            steps.append({"op": "conj", "in": ["uf_u"], "out": ["uf_uc"], "args": {}})
+            steps.append(rel("array_equal_den" if kind == "abelian" else "same_up_to_signs", "C05.conj_commutes_with_unfuse", "ffc_uu", "uf_uc"))
     return {"tid": tid, "inputs": {"x": x}, "steps": steps, "cfg": cfg or {}}
 
 
